@@ -96,11 +96,16 @@ impl CodeGenerator {
             let mut r = rand::thread_rng();
             #[cfg(feature = "verif")]
             let mut r = crate::push::verif::rng(r);
-            let n = Normal::new(mean, stddev).unwrap();
-            for _i in 0..size {
-                float_vector.push(n.sample(&mut r));
+            match Normal::new(mean, stddev) {
+                Ok(n) => {
+                    for _i in 0..size {
+                        float_vector.push(n.sample(&mut r));
+                    }
+                    Some(FloatVector::new(float_vector))
+                }
+                // not a valid deviation (NaN, infinite)
+                Err(_) => None,
             }
-            Some(FloatVector::new(float_vector))
         }
     }
 
